@@ -231,30 +231,78 @@ Theorem partial_derivative_leaf_good : forall (c dx : R) (n : nat) (m : meth) (p
   leaf_good (LPDeriv (repeat c n) (repeat c n) [n] 0 m p dx).
 Proof. exact leaf_good_pderiv_1d. Qed.
 
+(* ------------------------------------------------------------------------
+   N-d operators, EVERY shape (lifting C13.pderiv_adjoint_nd / gradient_adjoint_nd /
+   divergence_adjoint_nd / laplacian_selfadjoint_nd and Lib.AxisR.along_adjoint into the weighted inner
+   product of a uniformly weighted space: all weights equal c, e.g. uniform_discr without boundary nodes).
+   [axis_ok shape m p ax]: axis length >= 2 and both table rows in range on that axis. *)
+From Verif Require Import Lib.Axis C13.ProofsNd C13.ProofsLap C05.ProofsNd.
+Theorem partial_derivative_nd_adjoint_partial : forall (c dx : R) (shape : list nat) (ax : nat) (m : meth) (p : pmode),
+  (ax < length shape)%nat -> axis_ok shape m p ax -> dx <> 0%R ->
+  leaf_ok (LPDeriv (repeat c (prodn shape)) (repeat c (prodn shape)) shape ax m p dx).
+Proof. exact leaf_ok_pderiv_nd. Qed.
+Print Assumptions partial_derivative_nd_adjoint_partial.
+(* Gradient: space -> space^ndim and Divergence: space^ndim -> space (flat concatenation of the components) *)
+Theorem gradient_divergence_nd_adjoint_partial : forall (c : R) (shape : list nat) (m : meth) (p : pmode) (dxs : list R),
+  (0 < length shape)%nat -> length dxs = length shape ->
+  (forall i, (i < length shape)%nat -> axis_ok shape m p i) -> Forall (fun dx => dx <> 0%R) dxs ->
+  leaf_ok (LGrad (repeat c (prodn shape)) (repeat c (length shape * prodn shape)) shape m p dxs) /\
+  leaf_ok (LDiv (repeat c (length shape * prodn shape)) (repeat c (prodn shape)) shape
+                (adj_method m) (adj_padding p) dxs).
+Proof. exact leaf_ok_gradient_divergence_nd. Qed.
+Print Assumptions gradient_divergence_nd_adjoint_partial.
+(* Laplacian with the pad modes its constructor accepts ([lap_mode]): self-adjoint, as the code claims *)
+Theorem laplacian_nd_adjoint_partial : forall (c : R) (shape : list nat) (p : pmode) (dxs : list R),
+  lap_mode p = true -> length dxs = length shape ->
+  (forall i, (i < length shape)%nat -> (2 <= nth i shape 0)%nat) -> Forall (fun dx => dx <> 0%R) dxs ->
+  leaf_ok (LLap (repeat c (prodn shape)) (repeat c (prodn shape)) shape p dxs).
+Proof. exact leaf_ok_laplacian_nd. Qed.
+Print Assumptions laplacian_nd_adjoint_partial.
+(* MatrixOperator(M, domain, axis=ax) on an N-d tensor space: conj-transpose along the same axis *)
+Theorem matrix_axis_adjoint_partial : forall (c : R) (shape : list nat) (ax : nat) (M : list (list R)),
+  (ax < length shape)%nat -> ProofsLeaf.rect (nth ax shape 0%nat) M ->
+  leaf_ok (LMatrixAx (repeat c (prodn shape))
+                     (repeat c (prodn (firstn ax shape ++ length M :: skipn (S ax) shape))) shape ax M).
+Proof. exact leaf_ok_matrix_axis. Qed.
+Print Assumptions matrix_axis_adjoint_partial.
+
+(* ResizingOperator (pad_const = 0; resize_array of C16 along axis 0, 1, ...) between uniformly weighted
+   discretisations with the same cell volume c.  [config_ok]: every axis offset in range and the padding legal
+   for the mode (C16).  (i) the separable resize and the separable adjoint resize taken in reverse axis order
+   are adjoint for EVERY configuration; (ii) the operator the code returns (same axis order in both
+   directions) is the adjoint when at most one axis is resized -- all 5 pad modes, all shapes/offsets.
+   FULL STATEMENT for nodes_on_bdry spaces is false (finding resizing-adjoint-nodes-on-bdry). *)
+Theorem resizing_separable_adjoint : forall (c : R) (rm : C16.Syntax.pmode) (ish osh : list nat) (offs : list Z),
+  C16.ModelNd.config_ok rm ish osh offs = true ->
+  adj_pair (repeat c (prodn ish)) (repeat c (prodn osh))
+    (C16.ModelNd.sep_loop rm C16.Syntax.Forward 0%R true 1 ish osh offs)
+    (C16.ModelNd.sep_rev_loop rm C16.Syntax.Adjoint 0%R true 1 ish osh offs).
+Proof. exact resize_sep_adj_pair. Qed.
+Theorem resizing_adjoint_partial : forall (c : R) (rm : C16.Syntax.pmode) (ish osh : list nat) (offs : list Z),
+  C16.ModelNd.config_ok rm ish osh offs = true -> C16.PNd3.at_most_one ish osh offs = true ->
+  leaf_ok (LResize (repeat c (prodn ish)) (repeat c (prodn osh)) rm ish osh offs) /\
+  leaf_ok (LResizeAdj (repeat c (prodn osh)) (repeat c (prodn ish)) rm ish osh offs).
+Proof. exact leaf_ok_resize. Qed.
+(* Print Assumptions resizing_adjoint_partial: walks all of C16 (~30 s); its axioms are those of C16.Props.resize_adjoint_nd_single_axis *)
+
 (* Real <-> complex operators, realified (C^n = R^2n as re ++ im with weights w ++ w, so that
-   [cinner] is the REAL PART of the complex inner product): RealPart/ImagPart of a real space,
-   ComplexEmbedding(s) of a complex space (any s, any weights), and -- for the repaired variant
-   fx = true, in which RealPart(X).adjoint is defined on X.real_space -- RealPart, ImagPart,
-   ComplexEmbedding(real space, s) in all three branches of its adjoint (s real / imaginary / general). *)
+   [cinner] is the REAL PART of the complex inner product): RealPart/ImagPart of a real and of a
+   complex space, ComplexEmbedding(s) of a complex space (any s, any weights) and of a real space in all
+   three branches of its adjoint (s real / imaginary / general).  RealPart(X).adjoint is modelled as the
+   repaired code returns it (ComplexEmbedding on X.real_space, /repo commit 8efcc84). *)
 Theorem realpart_real_adjoint : forall w : list R, leaf_ok (LRealR w).
 Proof. exact leaf_ok_realR. Qed.
 Theorem imagpart_real_adjoint : forall w : list R, leaf_ok (LImagR w).
 Proof. exact leaf_ok_imagR. Qed.
 Theorem complex_embedding_complex_adjoint : forall (w : list R) (sr si : R), leaf_ok (LEmbedC w sr si).
 Proof. exact leaf_ok_embedC. Qed.
-Theorem realpart_complex_adjoint_fixed_variant : forall w : list R, leaf_ok (LRealC w true).
-Proof. exact leaf_ok_realC_fixed. Qed.
-Theorem imagpart_complex_adjoint_fixed_variant : forall w : list R, leaf_ok (LImagC w true).
-Proof. exact leaf_ok_imagC_fixed. Qed.
-Theorem complex_embedding_real_adjoint_fixed_variant : forall (w : list R) (sr si : R), leaf_ok (LEmbedR w sr si true).
-Proof. exact leaf_ok_embedR_fixed. Qed.
-Print Assumptions complex_embedding_real_adjoint_fixed_variant.
-(* FULL STATEMENT for the pinned source (fx = false) is false: the returned adjoint is an operator on
-   the COMPLEX space (finding realpart-complex-adjoint-domain) *)
-Theorem realpart_complex_adjoint_domain_refuted :
-  dom (leaf_adjoint (LRealC [1%R] false)) <> leaf_ran (LRealC [1%R] false)
-  /\ dom (leaf_adjoint (LImagC [1%R] false)) <> leaf_ran (LImagC [1%R] false).
-Proof. exact realC_adjoint_domain_refuted. Qed.
+Theorem realpart_complex_adjoint : forall w : list R, leaf_ok (LRealC w).
+Proof. exact leaf_ok_realC. Qed.
+Theorem imagpart_complex_adjoint : forall w : list R, leaf_ok (LImagC w).
+Proof. exact leaf_ok_imagC. Qed.
+Theorem complex_embedding_real_adjoint : forall (w : list R) (sr si : R), leaf_ok (LEmbedR w sr si).
+Proof. exact leaf_ok_embedR. Qed.
+Print Assumptions complex_embedding_real_adjoint.
 
 (* ------------------------------------------------------------------------
    The full statement is FALSE of the faithful model on non-uniformly weighted
@@ -338,15 +386,15 @@ Proof.
   - repeat constructor.
 Qed.
 
-(* non-vacuity for the realified reading: a real <-> complex tree (repaired variant) satisfies the
+(* non-vacuity for the realified reading: a real <-> complex tree satisfies the
    premise of expr_adjoint_sound_real, so the identity holds for it in the real part *)
 Definition ex_mixed : oexpr R :=
-  Comp (Sum (LScal 2 (Leaf (LRealC [1; 1] true))) (LScal 3 (Leaf (LImagC [1; 1] true))))
-       (Leaf (LEmbedR [1; 1] 1 2 true)).
+  Comp (Sum (LScal 2 (Leaf (LRealC [1; 1]))) (LScal 3 (Leaf (LImagC [1; 1]))))
+       (Leaf (LEmbedR [1; 1] 1 2)).
 Example ex_mixed_premises : wf leaf_ok ex_mixed.
 Proof.
   cbn [ex_mixed wf]. repeat match goal with |- _ /\ _ => split end; try reflexivity.
-  - apply leaf_ok_realC_fixed.
-  - apply leaf_ok_imagC_fixed.
-  - apply leaf_ok_embedR_fixed.
+  - apply leaf_ok_realC.
+  - apply leaf_ok_imagC.
+  - apply leaf_ok_embedR.
 Qed.
